@@ -5,6 +5,9 @@ sys.path.insert(0, os.path.dirname(os.path.abspath(__file__)))
 import vlib
 
 
+REQUIRED = {"lease", "core"}     # drivers of registered checks; others are work in progress and only warned about
+
+
 def main():
     cmds = sorted(d for d in os.listdir(os.path.join(vlib.HARNESS, "cmd")) if os.path.isdir(os.path.join(vlib.HARNESS, "cmd", d)))
     for c in cmds:
@@ -12,8 +15,13 @@ def main():
         tf = os.path.join(vlib.HARNESS, "cmd", c, "TAGS")
         if os.path.exists(tf):
             tags = open(tf).read().strip()
-        _, dt = vlib.go_build("./cmd/" + c, c, tags=tags)
-        print("built %s (%s) in %.1fs" % (c, tags, dt))
+        try:
+            _, dt = vlib.go_build("./cmd/" + c, c, tags=tags)
+            print("built %s (%s) in %.1fs" % (c, tags, dt))
+        except vlib.MachineryError as e:
+            if c in REQUIRED:
+                raise
+            print("WARNING: %s does not build (not used by a registered check): %s" % (c, str(e)[:300]))
     wd = vlib.scratch("setup-")
     try:
         r = vlib.run_tlc("Lease", "Dump_Lease2.cfg", wd, workers=2)
